@@ -255,12 +255,16 @@ func (e *endPoint) Close() error {
 // the Consumer.
 func (e *endPoint) RemoveHandler(id int) error {
 	e.handlersMutex.Lock()
-	defer e.handlersMutex.Unlock()
 	if id >= 0 && id < len(e.handlers) && e.handlers[id] != nil {
-		e.handlers[id].closeWith(nil)
+		handler := e.handlers[id]
 		e.handlers[id] = nil
+		e.handlersMutex.Unlock()
+		// the closer may call back into the endpoint: the
+		// handler is closed once the lock is released.
+		handler.closeWith(nil)
 		return nil
 	}
+	e.handlersMutex.Unlock()
 	return fmt.Errorf("invalid handler id: %d", id)
 }
 
